@@ -88,6 +88,57 @@ def _owner(d, reach, i: int) -> int:
     return os_[0]
 
 
+def r06g(chk, repo, g) -> None:
+    """A plain GREEDY sequence is never an option whose selection first-token pruning decides."""
+    chk.rule("R06g", "no option of a OneOf / AnyNumberOf / AnySetOf / Delimited node (read through Ref and segment wrappers) is a plain Sequence with parse_mode=GREEDY: such a sequence "
+             "claims the tokens up to its terminator as unparsable when its first element fails, so it 'matches' on first tokens its hint does not contain -- with pruning the option is "
+             "dropped, without pruning it wins (FIRST of R06c leaves the unparsable claim out, this rule closes that gap structurally)")
+    kinds = Kinds(g)
+    n_opts = n_greedy = 0
+    for label in sorted(g):
+        d = g[label]
+        if d.root is None or not d.nodes:
+            continue
+        reach = d.reach()
+        role = [kinds.role(n) for n in d.nodes]
+        for i, n in enumerate(d.nodes):
+            if role[i] == "sequence" and n.get("parse_mode") == "GREEDY" and i in reach:
+                n_greedy += 1
+        for i in reach:
+            n = d.nodes[i]
+            if role[i] not in ("anynumberof", "delimited"):
+                continue
+            for e in n.get("elements") or ():
+                n_opts += 1
+                j, hops = e, 0
+                while hops < 8:
+                    r = role[j]
+                    if r == "ref":
+                        t = d.library.get(d.nodes[j].get("ref"))
+                    elif r == "segment":
+                        t = d.nodes[j].get("match_grammar") if not d.nodes[j].get("own_match") else None
+                    else:
+                        break
+                    if t is None:
+                        break
+                    j, hops = t, hops + 1
+                if role[j] == "sequence" and d.nodes[j].get("parse_mode") == "GREEDY":
+                    own = d.owners(i)
+                    where = d.display(own[0]) if own else d.display(i)
+                    opt = d.display(e)
+                    mod = f"src/sqlfluff/dialects/dialect_{label}.py"
+                    chk.fail(
+                        "R06g", None,
+                        f"dialect '{label}': option {opt} of {d.nodes[i]['kind']} in {where} is a Sequence with parse_mode=GREEDY: when its first element does not match it still claims "
+                        f"everything up to the terminator as unparsable, so without first-token pruning it beats the alternatives listed after it, with pruning (hint {d.nodes[j].get('simple')}) it is never tried",
+                        detail=f"dialect={label} option={opt} in={where}: greedy sequence as a prunable option",
+                        construct=f"{mod}::{where}", loc=f"{mod}:0",
+                    )
+    chk.count("R06g.options_examined", n_opts)
+    chk.count("R06g.plain_greedy_sequences", n_greedy)
+    chk.floor("R06g.options_examined", 10000)
+
+
 def r06c(chk, repo, g) -> None:
     chk.rule("R06c", "for every grammar node reachable from the root of every dialect: FIRST(node) ⊆ simple(node) unless the hint is None; a node that can match "
              "without consuming a token has the hint None (FIRST/EPS by fixpoint over the serialised grammar graph)")
@@ -1355,6 +1406,7 @@ def run(chk) -> None:
     chk.note(f"grammar front-end: {len(g)} dialects, {g.n_nodes} nodes ({'cache' if g.from_cache else 'rebuilt'}); hints are the values of the declared simple() methods, "
              "FIRST/EPS are computed here from the serialised graph.")
     r06c(chk, repo, g)
+    r06g(chk, repo, g)
     chk.assumptions = [
         "CPython ast gives the program's syntax faithfully; the FIRST/EPS model of sa/grammar_first.py mirrors what match() of each matcher kind does on a stream of raw lexer tokens",
         "the reviewed tables REVIEWED_STATE / REVIEWED_GLOBALS in sa/rules/c06.py were read by hand",
@@ -1372,6 +1424,12 @@ ANSI = "src/sqlfluff/dialects/dialect_ansi.py"
 PARSER_PY = PARSER_DIR + "parser.py"
 
 VARIANTS = [
+    Variant(
+        "use-statement-made-greedy", ANSI,
+        '    match_grammar: Matchable = Sequence(\n        "USE",\n        Ref("DatabaseReferenceSegment"),\n    )\n',
+        '    match_grammar: Matchable = Sequence(\n        "USE",\n        Ref("DatabaseReferenceSegment"),\n        parse_mode=ParseMode.GREEDY,\n    )\n',
+        "R06g", None, "seeded C06-8 family: a statement alternative that claims everything when unstarted",
+    ),
     # behaviour-preserving refactors: must stay quiet
     Variant(
         "quiet-key-length-inline-and-reordered", MALG,
